@@ -169,13 +169,21 @@ static int mps_skip_comment (
 	EGLPNUM_TYPENAME_ILLread_mps_state * state)
 {
 	int rval;
+	unsigned int next;
 
 	while (EGLPNUM_TYPENAME_ILL_ISBLANK (state->p))
 	{
 		state->p++;
 	}
-	rval = ((*state->p == '$') && (state->field_num >= 2) &&
-					(state->field_num % 2 == 0));
+	/* number of the field that comes next, in the format's own counting: the
+	 * records of the COLUMNS, RHS and RANGES sections have no field 1 */
+	next = state->field_num + 1;
+	if (state->active == ILL_MPS_COLS || state->active == ILL_MPS_RHS ||
+			state->active == ILL_MPS_RANGES)
+	{
+		next++;
+	}
+	rval = ((*state->p == '$') && (next >= 3) && (next % 2 == 1));
 	return rval;
 }
 
